@@ -66,7 +66,7 @@ impl Scenario for C01 {
         "exploration"
     }
     fn rule(&self) -> String {
-        "Families: trunc-sweep — every truncation length of every small bundled file (thorough: also of its UTF-16LE/BE transcodings), enumerated; storage-faults — bundled or generated file with 0..3 storage faults (S1 truncate, S2 bit flip / overwrite / insert from a structural-byte dictionary, S3 torn splice with another file at 512-byte or arbitrary boundaries, S4 lost / zeroed / duplicated block, S6 invalid UTF-8 / lone surrogate / odd tail) and 0..3 record faults (L1..L5), encoding knob, Mode knob 0..3, mostly one-shot delivery with a share under chunking / Interrupted; workload-only families reported separately: uniform noise, dictionary noise. Every plan runs all nine decoder types; the Beatmap is encoded (Vec and encode_to_string), checked for UTF-8 and decoded again. distinct_nontrivial = distinct plan hashes that carry at least one storage or record fault or are noise.".into()
+        "Families: trunc-sweep — every truncation length of every small bundled file (thorough: also of its UTF-16LE/BE transcodings), enumerated; storage-faults — bundled or generated file with 0..3 storage faults (S1 truncate, S2 bit flip / overwrite / insert from a structural-byte dictionary, S3 torn splice with another file at 512-byte or arbitrary boundaries, S4 lost / zeroed / duplicated block, S6 invalid UTF-8 / lone surrogate / odd tail) and 0..3 record faults (L1..L5), encoding knob, Mode knob 0..3, mostly one-shot delivery with a share under chunking / Interrupted; workload-only families reported separately: uniform noise, dictionary noise, hostile slider geometry (near-collinear arcs at large coordinates that yield NaN lengths, huge arcs, limit coordinates). Every plan runs all nine decoder types; the Beatmap is encoded (Vec and encode_to_string), checked for UTF-8 and decoded again. distinct_nontrivial = distinct plan hashes that carry at least one storage or record fault or are noise.".into()
     }
     fn assumptions(&self) -> Vec<String> {
         vec![
@@ -82,7 +82,7 @@ impl Scenario for C01 {
     fn total_runs(&self, tier: Tier) -> u64 {
         self.trunc(tier).last().copied().unwrap_or(0)
             + match tier {
-                Tier::Quick => 250_000,
+                Tier::Quick => 180_000,
                 Tier::Thorough => 6_000_000,
             }
     }
@@ -122,6 +122,20 @@ impl Scenario for C01 {
                     let b = rng.pick(&ENCS).bom();
                     p.data[..b.len()].copy_from_slice(b);
                 }
+            }
+            3 | 4 | 5 => {
+                // grammar-generated file made of sliders with hostile geometry (workload generation, not a fault)
+                p.scen = "hostile-geometry".into();
+                let mode = rng.range(0, 3);
+                let mut t = format!("osu file format v{}\n\n[General]\nMode: {mode}\n\n[Difficulty]\nSliderMultiplier:{}\nSliderTickRate:{}\n\n[TimingPoints]\n0,{},4,1,0,100,1,0\n\n[HitObjects]\n", rng.range(3, 14), rng.pick(&["1.4", "0.4", "3.6", "1e-3"]), rng.pick(&["1", "0.5", "8"]), rng.pick(&["500", "6", "60000", "0.001"]));
+                let mut time = 0i64;
+                for _ in 0..2 + rng.below(10) {
+                    t.push_str(&crate::corpus::gen_hostile_slider(&mut rng, time));
+                    t.push('\n');
+                    time += rng.range(0, 2000);
+                }
+                p.data = t.into_bytes();
+                p.set("mode", mode);
             }
             1 | 2 => {
                 p.scen = "noise-dictionary".into();
@@ -177,6 +191,7 @@ impl Scenario for C01 {
             "noise-uniform" => "family.workload-only.uniform-noise",
             "noise-dictionary" => "family.workload-only.dictionary-noise",
             "generated+faults" => "family.grammar-generated(+faults)",
+            "hostile-geometry" => "family.workload-only.hostile-slider-geometry",
             _ => "family.fault-derived.bundled-map-mutations",
         });
         for f in &plan.faults {
@@ -238,6 +253,18 @@ impl Scenario for C01 {
         if !map.hit_objects.is_empty() {
             st.inc("probe.decoded-map-has-hit-objects");
         }
+        if plan.scen == "hostile-geometry" {
+            for h in map.hit_objects.iter_mut() {
+                if let rosu_map::section::hit_objects::HitObjectKind::Slider(s) = &mut h.kind {
+                    let d = s.path.curve().dist();
+                    if d.is_nan() {
+                        st.inc("probe.slider-with-NaN-curve-distance");
+                    } else if d.is_infinite() {
+                        st.inc("probe.slider-with-infinite-curve-distance");
+                    }
+                }
+            }
+        }
         let mut out = Vec::new();
         if let Err(e) = map.encode(&mut out) {
             return Err(Violation::new("C01/encode-failed", "encode-err", format!("encode into a Vec returned Err({e}) for a map obtained by decoding")));
@@ -261,7 +288,7 @@ impl Scenario for C01 {
         Ok(())
     }
     fn nontrivial(&self, plan: &Plan) -> bool {
-        !plan.faults.is_empty() || plan.scen.starts_with("noise")
+        !plan.faults.is_empty() || plan.scen.starts_with("noise") || plan.scen == "hostile-geometry"
     }
     fn reach_probes(&self) -> Vec<&'static str> {
         vec![
@@ -285,6 +312,8 @@ impl Scenario for C01 {
             "knob.mode.mania",
             "probe.decoded-map-has-hit-objects",
             "family.workload-only.uniform-noise",
+            "family.workload-only.hostile-slider-geometry",
+            "probe.slider-with-NaN-curve-distance",
         ]
     }
 }
